@@ -127,6 +127,15 @@ func (c *Client) Do(req *protocol.Request) (o RespObs) {
 	resp.Header.VisitAll(func(k, v []byte) {
 		o.Headers = append(o.Headers, httpref.Header{Name: string(k), Value: string(v)})
 	})
+	// getters that parse peer-controlled data lazily
+	resp.Header.VisitAllCookie(func(k, v []byte) {
+		var ck protocol.Cookie
+		_ = ck.ParseBytes(v)
+		_ = ck.Cookie()
+	})
+	_ = resp.Header.ContentType()
+	_ = resp.Header.Server()
+	_ = resp.Header.ContentEncoding()
 	if resp.IsBodyStream() {
 		buf := make([]byte, 4096)
 		bs := resp.BodyStream()
@@ -295,4 +304,19 @@ func ObserveResponse(stream []byte, segs [][]byte, streaming bool, name string) 
 	fmt.Fprintf(&sb, "dials=%d closed=%v out=%q", c.D.Dials, sc.Closed, sc.Out)
 	c.Reset()
 	return sb.String()
+}
+
+// ObserveRaw performs one GET exchange against a peer that answers with the given raw bytes.
+func ObserveRaw(segs [][]byte, streaming bool) RespObs {
+	sc := netsim.NewScriptConn(segs, netsim.EndEOF)
+	c := get(streaming)
+	defer put(streaming, c)
+	c.Reset(sc)
+	req := protocol.AcquireRequest()
+	req.SetMethod("GET")
+	req.SetRequestURI("http://h/x")
+	o := c.Do(req)
+	protocol.ReleaseRequest(req)
+	c.Reset()
+	return o
 }
